@@ -788,8 +788,8 @@ func (g *gen) genStep(bt *uint64, idx int) Step {
 				e := mkExtra(r, g.addrs[:1+r.Intn(3)])
 				cut := 1 + r.Intn(19)
 				h.Extra = append(e[:len(e)-65-cut], make([]byte, 65)...)
-			case 4:
-				h.Extra = r.Bytes(r.Intn(97))
+			case 4: // extra data shorter than vanity + seal; 65..96 bytes can still be sealed, 77 = 97-20 at an epoch block
+				h.Extra = r.Bytes([]int{r.Intn(32), 32 + r.Intn(33), 65 + r.Intn(32), 77, 96, 65}[r.Intn(6)])
 			case 5:
 				h.GasLimit = 1<<63 + uint64(r.Intn(5))
 			case 6:
